@@ -587,7 +587,7 @@ def generate(rng, tier):
     # ---- arguments that are the objects' own public members (restart idioms, aliasing), by reference and by value
     for _ in range(1500 if big else 150): cs.append(member_case(rng))
     # ---- the caller writes the public members between calls; calls abandoned by a throwing objective; same arguments, another objective
-    for _ in range(1500 if big else 100): cs.append(state_case(rng))
+    for _ in range(800 if big else 100): cs.append(state_case(rng))
     # ---- re-entrancy: the objective itself runs a minimisation (profiled objective)
     for _ in range(500 if big else 60): cs.append(nest_case(rng))
     # ---- guard of the deltas overload (mismatched lengths must exit)
